@@ -18,6 +18,8 @@ import (
 	"os"
 
 	. "adharness/common"
+
+	ad "github.com/pbenner/autodiff"
 )
 
 type shadow struct {
@@ -602,7 +604,19 @@ func known(o Opts) {
 	// the dense loop looks at positions where both operands are zero; the oracle does not
 	// judge the result of such calls.  Found and fixed while building this check: sparse
 	// MdotM accumulated onto the receiver (c117908), sparse matrix Equals (fc1915b).)
-	_ = fmt.Sprintf
+	// F-MDOTM-RR (listed under C08, referenced here): dense r.MdotM(r, r)
+	func() {
+		defer func() {
+			if r := recover(); r != nil {
+				out = append(out, kf{"F-MDOTM-RR", false, fmt.Sprintf("panic: %v", r)})
+			}
+		}()
+		m := ad.NewDenseFloat64Matrix([]float64{1, 2, 3, 4}, 2, 2)
+		m.MdotM(m, m)
+		got := []float64{m.Float64At(0, 0), m.Float64At(0, 1), m.Float64At(1, 0), m.Float64At(1, 1)}
+		wrong := got[0] != 7 || got[1] != 10 || got[2] != 15 || got[3] != 22
+		out = append(out, kf{"F-MDOTM-RR", wrong, fmt.Sprintf("dense [[1,2],[3,4]].MdotM(self, self) = %v, the square is [7 10 15 22]", got)})
+	}()
 	b, _ := json.MarshalIndent(out, "", " ")
 	os.MkdirAll(o.Out, 0755)
 	os.WriteFile(o.Out+"/known.json", b, 0644)
